@@ -38,6 +38,17 @@ theorem smScanWith_prefix (limit : Nat) (pre post : List SmLine) (long : SmLine)
     have := ih (fun x hx => hp x (by simp [hx]))
     simp [smScanWith, ha, this]
 
+/-- a scan that ends without an error has delivered every line -/
+theorem smScanWith_noErr (limit : Nat) (ls : List SmLine) (h : (smScanWith limit ls).2 = false) :
+    (smScanWith limit ls).1 = ls := by
+  induction ls with
+  | nil => rfl
+  | cons l r ih =>
+    by_cases hl : limit ≤ l.len
+    · simp [smScanWith, hl] at h
+    · simp only [smScanWith, hl, if_false] at h ⊢
+      simp [ih h]
+
 theorem smScan_allShort (ls : List SmLine) (h : AllShort ls) : smScan ls = (ls, false) :=
   smScanWith_allShorter smScanLimit ls h
 
